@@ -26,6 +26,10 @@ YearAsOffset(order, f, sep) == sep = "-" /\ OrderLetters(order)[3] = "Y" /\ IsOf
 Expected(order, f, tm) ==
   LET r == Reading(order, f) IN <<r[1], r[2], r[3], tm[1], tm[2], tm[3], 0>>
 
+\* the time suffix may carry a fraction of a second (and a zone, which relabels the result but moves no field)
+ExpectedUs(order, f, tm, us) ==
+  LET r == Reading(order, f) IN <<r[1], r[2], r[3], tm[1], tm[2], tm[3], us>>
+
 \* the selected locale's own order: used only when the caller supplied none
 EffOrder(explicit, given, plo, locorder) ==
   IF explicit THEN given ELSE IF plo /\ locorder # "" THEN locorder ELSE "MDY"
